@@ -279,6 +279,7 @@ class Ctx:
         os.makedirs(REPLAYS, exist_ok=True)
         self.known = load_known()
         self.quick = tier != 'thorough'
+        self.explained = set()     # names of broken obligations for which a concrete finding/violation was reported
 
     # -- obligations
     def oblige(self, name, ok, detail=''):
@@ -289,6 +290,12 @@ class Ctx:
 
     def broken(self):
         return [(n, d) for (n, ok, d) in self.obligations if not ok]
+
+    def explain(self, name_prefix):
+        """A broken obligation whose concrete failing input has been reported (as a violation or a known finding)."""
+        for (n, ok, _) in self.obligations:
+            if not ok and n.startswith(name_prefix):
+                self.explained.add(n)
 
     def count(self, evaluations=0, nontrivial=0):
         self.cov['evaluations'] += evaluations
@@ -383,7 +390,7 @@ class Ctx:
 
     def finish(self):
         # broken obligations for which no violation was reported -> no-failing-input-found
-        broken = self.broken()
+        broken = [(n, d) for (n, d) in self.broken() if n not in self.explained]
         if broken and not self.violations:
             names = [n for n, _ in broken]
             self.report('obligation:' + names[0], 'proof obligation / correspondence no longer checks',
